@@ -84,6 +84,7 @@ THEOREMS = [
     NS + "C16_print_parse_sympy",
     NS + "C16_overload_dispatch_bool",
     NS + "C16_print_parse_sympy_symexp",
+    NS + "C16_print_parse_sympy_refines",
 ]
 ASSUMPTIONS = [
     "SymPy (construction, automatic simplification, str, subs, simplify, floor/Mod/Max arithmetic) is external: "
@@ -1148,6 +1149,17 @@ def _is_product_quotient(x) -> bool:
     return x[0] == "b" and x[1] == "div" and len(_den_factors(x)) >= 2
 
 
+def _is_floor_of_lattice_quotient(x) -> bool:
+    """a // or % (or floor / ceiling / trunc of a true quotient) whose dividend contains a Max / Min / Abs"""
+    if x[0] == "b" and x[1] in ("fdiv", "mod"):
+        dividend = x[2]
+    elif x[0] == "u" and x[1] in ("floor", "ceil", "trunc") and x[2][0] == "b" and x[2][1] == "div":
+        dividend = x[2][2]
+    else:
+        return False
+    return _has(dividend, lambda y: _is_lattice(y) or (y[0] == "u" and y[1] == "abs"))
+
+
 def _is_sign_consumer(x) -> bool:
     """an operation SymPy evaluates by deciding the sign of `number - operand`: Max, Min, %, //, floor, ceiling, Abs, sign, trunc"""
     return (x[0] == "b" and x[1] in ("max", "min", "mod", "fdiv")) or (x[0] == "u" and x[1] in ("floor", "ceil", "abs", "sign", "trunc"))
@@ -1212,6 +1224,10 @@ def sympy_defect_class(t, env) -> str:
                              Max(7, 10/(M*N)) == 10/(M*N), Min(7, 10/(M*N)) == 7, Mod(2, 7/(M*N)) == 2, Mod(2, -7/(K*M*N)) == 2 - 7/(K*M*N),
                              Abs(1 - 1/(a*b)) == 1/(a*b) - 1 (negative!): a Max / Min / % / // / floor / ceiling / Abs / sign / trunc over a true
                              quotient whose denominator (negative powers included) has >= 2 non-literal factors
+      even-quotient-integrality  (e/6).is_integer is True for an EVEN expression e that is not a product (an even symbol, Max(6, 2*N),
+                             Min(6, 2*N), Abs(2*N - 8)) and a denominator 2*odd (6, 10; None for 4), so floor(Max(6, 2*N)/6) == Max(6, 2*N)/6
+                             (the floor is dropped at construction, or in the middle of evaluate's symbol-by-symbol subs when the denominator
+                             becomes such a literal): a // / floor / ceiling / trunc / % whose dividend contains a Max / Min / Abs (D443, wave 4)
     anything else is 'unclassified' and is NOT covered by a known finding."""
     locus = sympy_defect_locus(t, env)
     if _has(locus, _is_sym_pow) and _has(locus, lambda x: x[0] in "ub" and x[1] in ("mod", "fdiv", "floor", "ceil")):
@@ -1222,6 +1238,8 @@ def sympy_defect_class(t, env) -> str:
         return "lattice-over-quotient"
     if _has(locus, lambda x: _is_sign_consumer(x) and _has(x, _is_product_quotient)):
         return "product-quotient-sign"
+    if _has(locus, _is_floor_of_lattice_quotient):
+        return "even-quotient-integrality"
     return "unclassified"
 
 
@@ -2904,10 +2922,10 @@ def _sympy_pp_values(P, sp, case):
                 P.disagree("C16_print_parse_sympy_symexp contradicted: SWfX and denNZ, yet the printed text evaluates differently from the meaning", case, vp, vd)
                 return
             if not ok:
-                # not a theorem (differential): at a zero base the text may lose its value, it never gets ANOTHER value
+                # C16_print_parse_sympy_refines: at a zero base the text may lose its value, it never gets ANOTHER value
                 P.count("sympy_pp_symexp_zero_base=" + ("same" if a == b else "text-has-no-value" if a is None else "DIFFERENT"))
                 if a is not None and a != b:
-                    P.disagree("SymPy surface form with a zero-based symbolic denominator: the printed text has a value other than the meaning's", case, vp, vd)
+                    P.disagree("C16_print_parse_sympy_refines contradicted: with a zero-based symbolic denominator the printed text has a value other than the meaning's", case, vp, vd)
                     return
         return
     if vp != vd:
@@ -3553,8 +3571,6 @@ def run(ctx: Ctx) -> None:
         "with against str.isspace / isdigit / isalpha / isalnum / isidentifier / int() as get_token asks them, and the model tokenizer against the "
         "real one on the probe texts c, ac, 1c, c1"
     )
-    for it in [it for k, it in corpus_other if k == "sympytext"] + sqrt_items(rng, ctx.pick(160, 2500)):
-        other_items.append(("sympytext", it))
     deriv_items = []
     sdepths = [1, 1, 2, 2, 3] if ctx.quick else [1, 2, 2, 3, 4]
     max_tokens = ctx.pick(120, 400)  # SymPy's Max/Min/Mod construction is the cost of a long sentence
@@ -3581,6 +3597,9 @@ def run(ctx: Ctx) -> None:
         str_items.append(dict(s=s, envs=_string_envs(rng, s), src="malformed"))
     ctx.count("corpus_cases", ncorpus)
     rng.shuffle(tree_items)
+    # generated LAST: the families above keep the random stream (and so the cases per seed) they had before this family existed
+    for it in [it for k, it in corpus_other if k == "sympytext"] + sqrt_items(rng, ctx.pick(160, 2500)):
+        other_items.append(("sympytext", it))
     other_chunks = [(k, [it]) for k, it in other_items]
     # guards (see _run_chunk / _pmap_guarded): CPU seconds per case (the slowest case of an unchanged tree needs 1 to 4, measured in CPU time and so
     # independent of the machine's load) do the work; the wall limit of the whole pool (an unchanged tree needs about 30 s / 10 min on an idle
